@@ -108,8 +108,25 @@ class ListMonitor:
         kids = [(id(c), c) for c in owner_el]
         view = [id(x._element) for x in lst]
         uu = ol.uuids(lst)
+        # members of a removed subtree that live in OTHER fragment files survive the removal (C09's known
+        # finding `...|fragment-spanning`); for the frame they count as gone, they are not C08's subject
+        spanning: set = set()
+        if st.op in ("delitem", "remove", "setitem", "clear") and st.rel.contain:
+            n_ = len(lst)
+            victims = []
+            if st.op in ("delitem", "setitem") and -n_ <= st.args.get("i", 0) < n_:
+                victims = [lst[st.args["i"]]]
+            elif st.op == "remove":
+                victims = [x for x in lst if getattr(x, "uuid", None) == st.args.get("uuid")]
+            elif st.op == "clear":
+                victims = list(lst)
+            for v in victims:
+                own_root = v._element.getroottree().getroot()
+                for d in model._loader.iterdescendants_xt(v._element):
+                    if d.getroottree().getroot() is not own_root and d.get("id"):
+                        spanning.add(d.get("id"))
         self._pre = {
-            "view": view, "uuids": uu, "kids": [k for k, _ in kids],
+            "view": view, "uuids": uu, "kids": [k for k, _ in kids], "spanning": spanning,
             "snap": ol.tree_snapshot(model._loader),
             "hashes": ol.frag_hashes(model._loader) ,
             "interleaved": interleaved([k for k, _ in kids], view),
@@ -129,6 +146,13 @@ class ListMonitor:
                       dict(S.describe(st), outcome=rec.outcome, n=n), nontrivial=True)
         self.out.hit(f"{kind}.{st.op}.{ic}.{'ok' if rec.outcome == 'ok' else 'rejected'}")
         loader = model._loader
+        # an accepted edit must leave every fragment file with a proper root (otherwise save() cannot write it)
+        for fname, tree in loader.trees.items():
+            if tree.root.getparent() is not None:
+                self.find(rec, f"fragment-root-moved-into-another-file|{kind}|{st.op}",
+                          f"after {st.op} the root element of fragment {fname} hangs inside another file's tree (the object that is its own fragment file was moved; its placeholder stays behind)")
+                model._verif_broken_roots = True
+                break
         if rec.outcome != "ok":
             # a rejected operation changes nothing
             h1 = ol.frag_hashes(loader)
@@ -216,6 +240,8 @@ class ListMonitor:
         explicit_roots = {nid for nid in gone if ident(snap0[nid][3]) in explicit}
         gone_ids = {ident(snap0[nid][3]) for nid in gone if ident(snap0[nid][3])}
         alive_ids = {ident(snap1[nid][3]) for nid in snap1 if ident(snap1[nid][3])}
+        alive_ids -= pre.get("spanning", set())
+        gone_ids |= pre.get("spanning", set())
         moved_id = st.args.get("uuid")
         moved_roots = {nid for nid in snap1 if ident(snap1[nid][3]) == moved_id} if st.op in ("insert", "append", "setitem") else set()
 
@@ -288,8 +314,8 @@ class ReloadMonitor:
             self.touched[(st.rel.owner.uuid, st.rel.attr)] = st.rel
 
     def end(self, model):
-        if not self.touched:
-            return
+        if not self.touched or getattr(model, "_verif_broken_roots", False):
+            return   # (a moved fragment root was already reported at the step that caused it)
         capellambse = ol.import_capellambse()
         try:
             model.save()
